@@ -379,6 +379,7 @@ def run_case(case, rec, mon=None):
             hist.append((st, _feed(inst, data, rng, st)))
             insts.append(inst)
         differs = None
+        differs2 = []
         # a reloaded instance (npy) gets the saver's shadow
         if rng.random() < 0.3:
             d = tempfile.mkdtemp(prefix="c16_")
@@ -389,6 +390,13 @@ def run_case(case, rec, mon=None):
                 mon.adopt(loaded, insts[0])
                 insts.append(loaded)
                 rec.count("reloaded_instances")
+                if rng.random() < 0.5:
+                    # the same statistics under the other norm_var setting: what one object collected serves the other
+                    flipped = P.Standardize(path, norm_var=not norm_var)
+                    mon.adopt(flipped, insts[0])
+                    insts.append(flipped)
+                    differs2.append(flipped)
+                    rec.count("statistics_reloaded_under_the_other_norm_var")
                 if rng.random() < 0.6:
                     # a second object loaded from the same file; then more data for the first one only
                     loaded2 = P.Standardize(path, norm_var=norm_var)
@@ -438,7 +446,7 @@ def run_case(case, rec, mon=None):
                     outs.append(inst.apply(xx, axis, in_place) if rng.random() < 0.5 else inst.apply(xx, axis=axis, in_place=in_place))
                 except Exception:
                     outs.append(None)
-            good = [o for o, inst in zip(outs, insts) if o is not None and inst is not differs]
+            good = [o for o, inst in zip(outs, insts) if o is not None and inst is not differs and not any(inst is f for f in differs2)]
             rec.count("additivity_groups")
             for o in good[1:]:
                 S = float(np.max(np.abs(good[0]))) if good[0].size else 1.0
